@@ -5,6 +5,7 @@ import (
 	"github.com/invopop/gobl/currency"
 	"github.com/invopop/gobl/l10n"
 	"github.com/invopop/gobl/num"
+	"github.com/invopop/validation"
 )
 
 // CategoryTotal groups together all rates inside a given category.
@@ -57,6 +58,31 @@ type Total struct {
 
 	// Precise sum in the background, in case needed for calculations
 	sum num.Amount
+}
+
+// Validate checks the contents of the totals, which may have been provided
+// as part of a reference to another document.
+func (t *Total) Validate() error {
+	return validation.ValidateStruct(t,
+		validation.Field(&t.Categories),
+	)
+}
+
+// Validate checks the category total's rates.
+func (ct *CategoryTotal) Validate() error {
+	return validation.ValidateStruct(ct,
+		validation.Field(&ct.Code, validation.Required),
+		validation.Field(&ct.Rates),
+	)
+}
+
+// Validate checks the rate total's country and extensions.
+func (rt *RateTotal) Validate() error {
+	return validation.ValidateStruct(rt,
+		validation.Field(&rt.Key),
+		validation.Field(&rt.Country),
+		validation.Field(&rt.Ext),
+	)
 }
 
 // PreciseAmount contains the intermediary amount generated from the calculator
